@@ -30,9 +30,22 @@ Definition sub16 (a b : N) : N := (a + two16 - b) mod two16.   (* a, b < 2^16 *)
      v_dedup      ConfigurePool keeps only the first occurrence of an outside address
      v_rollback   the failure branch of tryRestoreSyncedMapping's dataplane callback removes the subscriber's reverse
                   entries before it releases the subscriber's blocks *)
-Record variant := { v_validate : bool; v_replace : bool; v_dedup : bool; v_rollback : bool }.
-Definition repaired : variant := {| v_validate := true; v_replace := true; v_dedup := true; v_rollback := true |}.
-Definition defective : variant := {| v_validate := false; v_replace := false; v_dedup := false; v_rollback := false |}.
+Record variant := { v_validate : bool; v_replace : bool; v_dedup : bool; v_rollback : bool;
+                    v_vrfkey : bool; v_xpool : bool; v_late : bool }.
+(*   v_vrfkey     the component keys the pool by (inside VRF, inside address) instead of (0, inside address)
+     v_xpool      cgnat.Config.Validate rejects two pools whose outside addresses overlap
+     v_late       a dataplane add that completes late is reconciled with what happened meanwhile: a release of the
+                  session cancels the activation in flight (blocks and reverse entries released), a successful
+                  completion commits only if the subscriber still holds the block, a failed one removes the
+                  subscriber's reverse entries before releasing.  NO patch exists for this one: it is the
+                  specification of a repair, used to recognise the recorded finding; the exactness theorem is
+                  proved for histories without late completions only. *)
+Definition repaired : variant :=
+  {| v_validate := true; v_replace := true; v_dedup := true; v_rollback := true; v_vrfkey := true; v_xpool := true;
+     v_late := true |}.
+Definition defective : variant :=
+  {| v_validate := false; v_replace := false; v_dedup := false; v_rollback := false; v_vrfkey := false;
+     v_xpool := false; v_late := false |}.
 
 (* ---------------------------------------------------------------- configuration *)
 Inductive outside := OIp (ip : N) | OCidr (ip len : N).
@@ -412,17 +425,30 @@ Definition rev_lookup (ri : rindex) (ip port : N) : option mapping :=
   find (fun m => covers (m_blk m) ip port) (r_byip ri).
 
 (* ---------------------------------------------------------------- component call order (component.go) *)
-Record comp := { cp_pool : pool; cp_rev : rindex; cp_sess : list N }.
+(* A subscriber is (inside VRF, inside address), encoded as vrf * 65536 + low 16 bits of the address.  Before the
+   VRF fix the component passes VRF 0 to every pool call it derives from a session. *)
+Definition pk (v : variant) (k : N) : N := if v_vrfkey v then k else k mod 65536.
+
+(* cp_pend: activations whose dataplane add is still in flight: (session, pool key, block) *)
+Record comp := { cp_pool : pool; cp_rev : rindex; cp_sess : list N; cp_pend : list (N * N * block) }.
 Definition sess_add (sid : N) (l : list N) : list N := if existsb (N.eqb sid) l then l else l ++ [sid].
 Definition sess_del (sid : N) (l : list N) : list N := filter (fun x => negb (x =? sid)) l.
+Definition pend_sid (e : N * N * block) : N := fst (fst e).
+(* beginActivation: a committed session or an activation in flight makes the event a no-op *)
+Definition busy (s : comp) (sid : N) : bool :=
+  existsb (N.eqb sid) (cp_sess s) || existsb (fun e => pend_sid e =? sid) (cp_pend s).
 
 (* Every event carries the outcome of the southbound calls it makes (the fault pattern).  Outcomes that the code
    ignores for its own pool / index state are still parameters, so that the theorems quantify over them. *)
 Inductive cop :=
 | CActivate (sid k : N) (dp_ok : bool) (obs : option block)
-    (* handleSessionActivate -> handlePBAActivate; dp_ok = outcome of the dataplane add *)
+    (* handleSessionActivate -> handlePBAActivate; dp_ok = outcome of the dataplane add, known at once *)
+| CActivateLate (sid k : N) (obs : option block)
+    (* same, but the dataplane add stays in flight; CAddComplete delivers its outcome *)
+| CAddComplete (sid : N) (ok : bool)
+    (* the callback of an in-flight add runs *)
 | CSynced (sid k mk : N) (mb : block) (dp_ok : bool) (obs : option block)
-    (* same, with an HA-synced record (subscriber mk, block mb) waiting in opdb; dp_ok = outcome of the add *)
+    (* activation with an HA-synced record (subscriber mk, block mb) waiting in opdb; dp_ok = outcome of the add *)
 | CRelease (sid k : N) (del_ok : list bool)
     (* handleSessionRelease; del_ok = outcome of the dataplane delete of each mapping, whenever it completes *)
 | CRestorePresent (sid mk : N) (mb : block) (bulk : N) (obs : option block)
@@ -433,9 +459,9 @@ Inductive cop :=
 | CComplete.                                 (* deferred dataplane delete callbacks fire (any order) *)
 
 Definition commit_mapping (v : variant) (s : comp) (p : pool) (sid k : N) (b : block) : comp :=
-  {| cp_pool := p; cp_rev := rev_add v (cp_rev s) k b; cp_sess := sess_add sid (cp_sess s) |}.
+  {| cp_pool := p; cp_rev := rev_add v (cp_rev s) k b; cp_sess := sess_add sid (cp_sess s); cp_pend := cp_pend s |}.
 Definition with_pool (s : comp) (p : pool) : comp :=
-  {| cp_pool := p; cp_rev := cp_rev s; cp_sess := cp_sess s |}.
+  {| cp_pool := p; cp_rev := cp_rev s; cp_sess := cp_sess s; cp_pend := cp_pend s |}.
 
 Definition pba_activate (v : variant) (c : cfg) (s : comp) (sid k : N) (dp_ok : bool) (obs : option block)
   : comp * out :=
@@ -450,34 +476,64 @@ Definition pba_activate (v : variant) (c : cfg) (s : comp) (sid k : N) (dp_ok : 
 Definition cstep (v : variant) (c : cfg) (s : comp) (o : cop) : comp * out :=
   match o with
   | CActivate sid k dp_ok obs =>
-      if existsb (N.eqb sid) (cp_sess s) then (s, ROk) else pba_activate v c s sid k dp_ok obs
+      if busy s sid then (s, ROk) else pba_activate v c s sid (pk v k) dp_ok obs
+  | CActivateLate sid k obs =>
+      if busy s sid then (s, ROk)
+      else match step v c (cp_pool s) (OGoa (pk v k) obs) with
+           | (p', RBlock false b) => (commit_mapping v s p' sid (pk v k) b, RBlock false b)
+           | (p', RBlock true b) =>
+               ({| cp_pool := p'; cp_rev := cp_rev s; cp_sess := cp_sess s;
+                   cp_pend := cp_pend s ++ [(sid, pk v k, b)] |}, RBlock true b)
+           | (p', o) => (with_pool s p', o)
+           end
+  | CAddComplete sid ok =>
+      match find (fun e => pend_sid e =? sid) (cp_pend s) with
+      | None => (s, ROk)
+      | Some e =>
+          let k := snd (fst e) in
+          let b := snd e in
+          let s1 := {| cp_pool := cp_pool s; cp_rev := cp_rev s; cp_sess := cp_sess s;
+                       cp_pend := filter (fun e => negb (pend_sid e =? sid)) (cp_pend s) |} in
+          if ok then
+            if v_late v && negb (existsb (block_eqb b) (blocks_of (cp_pool s) k)) then (s1, ROk)
+            else (commit_mapping v s1 (cp_pool s) sid k b, ROk)
+          else
+            ({| cp_pool := release c (cp_pool s) k;
+                cp_rev := if v_late v
+                          then fold_left (fun ri b => rev_remove ri (b_ip b) (b_start b)) (blocks_of (cp_pool s) k) (cp_rev s)
+                          else cp_rev s;
+                cp_sess := cp_sess s1; cp_pend := cp_pend s1 |}, ROk)
+      end
   | CSynced sid k mk mb dp_ok obs =>
-      if existsb (N.eqb sid) (cp_sess s) then (s, ROk)
+      if busy s sid then (s, ROk)
       else match restore v c (cp_pool s) mk mb true with
            | Some p' =>
                if dp_ok then (commit_mapping v s p' sid mk mb, RBlock true mb)
                else
-                 (* failure callback: ReleaseBlocks(mapping.InsideIP) *)
-                 ({| cp_pool := release c p' mk;
+                 (* failure callback: ReleaseBlocks(mapping.InsideIP, VRF 0 before the VRF fix) *)
+                 ({| cp_pool := release c p' (pk v mk);
                      cp_rev := if v_rollback v
-                               then fold_left (fun ri b => rev_remove ri (b_ip b) (b_start b)) (blocks_of p' mk) (cp_rev s)
+                               then fold_left (fun ri b => rev_remove ri (b_ip b) (b_start b)) (blocks_of p' (pk v mk)) (cp_rev s)
                                else cp_rev s;
-                     cp_sess := cp_sess s |}, RBlock true mb)
-           | None => pba_activate v c s sid k dp_ok obs
+                     cp_sess := cp_sess s; cp_pend := cp_pend s |}, RBlock true mb)
+           | None => pba_activate v c s sid (pk v k) dp_ok obs
            end
   | CRelease sid k _ =>
-      if negb (existsb (N.eqb sid) (cp_sess s)) then (s, ROk)
+      let pending := existsb (fun e => pend_sid e =? sid) (cp_pend s) in
+      if negb (existsb (N.eqb sid) (cp_sess s)) && negb (v_late v && pending) then (s, ROk)
       else
-        let bl := blocks_of (cp_pool s) k in
+        let bl := blocks_of (cp_pool s) (pk v k) in
+        let pend' := if v_late v then filter (fun e => negb (pend_sid e =? sid)) (cp_pend s) else cp_pend s in
         match bl with
-        | [] => ({| cp_pool := cp_pool s; cp_rev := cp_rev s; cp_sess := sess_del sid (cp_sess s) |}, ROk)
-        | _ => ({| cp_pool := release c (cp_pool s) k;
+        | [] => ({| cp_pool := cp_pool s; cp_rev := cp_rev s; cp_sess := sess_del sid (cp_sess s);
+                    cp_pend := pend' |}, ROk)
+        | _ => ({| cp_pool := release c (cp_pool s) (pk v k);
                    cp_rev := fold_left (fun ri b => rev_remove ri (b_ip b) (b_start b)) bl (cp_rev s);
-                   cp_sess := sess_del sid (cp_sess s) |}, ROk)
+                   cp_sess := sess_del sid (cp_sess s); cp_pend := pend' |}, ROk)
         end
   | CRestorePresent sid mk mb bulk obs =>
       if negb (bulk =? 0) then
-        if existsb (N.eqb sid) (cp_sess s) then (s, ROk) else pba_activate v c s sid mk true obs
+        if busy s sid then (s, ROk) else pba_activate v c s sid (pk v mk) true obs
       else
       match restore v c (cp_pool s) mk mb true with
       | Some p' => (commit_mapping v s p' sid mk mb, ROk)
@@ -487,14 +543,18 @@ Definition cstep (v : variant) (c : cfg) (s : comp) (o : cop) : comp * out :=
       end
   | CRestoreDegraded mk mb =>
       match restore v c (cp_pool s) mk mb true with
-      | Some p' => ({| cp_pool := p'; cp_rev := rev_add v (cp_rev s) mk mb; cp_sess := cp_sess s |}, ROk)
+      | Some p' => ({| cp_pool := p'; cp_rev := rev_add v (cp_rev s) mk mb; cp_sess := cp_sess s;
+                       cp_pend := cp_pend s |}, ROk)
       | None => (s, RRestoreErr)
       end
   | CComplete => (s, ROk)
   end.
 Definition crun (v : variant) (c : cfg) (s : comp) (ops : list cop) : comp :=
   fold_left (fun s o => fst (cstep v c s o)) ops s.
-Definition comp_init (p : pool) : comp := {| cp_pool := p; cp_rev := rev_empty; cp_sess := [] |}.
+Definition comp_init (p : pool) : comp := {| cp_pool := p; cp_rev := rev_empty; cp_sess := []; cp_pend := [] |}.
+(* events whose dataplane add outcome is known before the next event *)
+Definition sync_op (o : cop) : bool :=
+  match o with CActivateLate _ _ _ | CAddComplete _ _ => false | _ => true end.
 
 (* the property's reference for the reverse lookup, read off the pool *)
 Definition owns (p : pool) (k : N) (b : block) : bool :=
@@ -508,3 +568,41 @@ Definition mon_trace (s : comp) (ip port : N) : bool :=
   | Some m => owns (cp_pool s) (m_sub m) (m_blk m) && covers (m_blk m) ip port
   | None => negb (covered (cp_pool s) ip port)
   end.
+
+(* ---------------------------------------------------------------- several pools on one PoolManager *)
+(* pools are independent allocators; cgnat.Config.Validate (after the fix) rejects configurations in which two
+   pools list a common outside address *)
+Definition outside_set (r : rawcfg) : list N := flat_map expand (r_outside r).
+Definition share_address (r1 r2 : rawcfg) : bool :=
+  existsb (fun ip => existsb (N.eqb ip) (outside_set r2)) (outside_set r1).
+Fixpoint pools_valid (rs : list rawcfg) : bool :=
+  match rs with
+  | [] => true
+  | r :: rest => forallb (fun r2 => negb (share_address r r2)) rest && pools_valid rest
+  end.
+Fixpoint configure_all (v : variant) (rs : list rawcfg) : option (list (cfg * pool)) :=
+  match rs with
+  | [] => Some []
+  | r :: rest =>
+      match configure v r, configure_all v rest with
+      | Some p, Some ps => Some ((effective r, p) :: ps)
+      | _, _ => None
+      end
+  end.
+(* None: the configuration is rejected (or ConfigurePool panics) *)
+Definition mconfigure (v : variant) (rs : list rawcfg) : option (list (cfg * pool)) :=
+  if v_xpool v && negb (pools_valid rs) then None else configure_all v rs.
+Definition mstep (v : variant) (ps : list (cfg * pool)) (io : nat * op) : list (cfg * pool) :=
+  upd_nth (fst io) (fun cp => (fst cp, fst (step v (fst cp) (snd cp) (snd io)))) ps.
+Definition mrun (v : variant) (ps : list (cfg * pool)) (ops : list (nat * op)) : list (cfg * pool) :=
+  fold_left (mstep v) ops ps.
+Definition mblocks (ps : list (cfg * pool)) (i : nat) (k : N) : list block :=
+  match nth_error ps i with Some cp => blocks_of (snd cp) k | None => [] end.
+(* monitor: two holders that differ in pool or subscriber overlap *)
+Definition mall_blocks (ps : list (cfg * pool)) : list (N * N * block) :=
+  flat_map (fun ip => map (fun kb => (N.of_nat (fst ip), fst kb, snd kb)) (all_blocks (snd (snd ip))))
+           (combine (seq 0 (length ps)) ps).
+Definition mon_xdisjoint (ps : list (cfg * pool)) : bool :=
+  forallb (fun x => forallb (fun y =>
+      ((fst (fst x) =? fst (fst y)) && (snd (fst x) =? snd (fst y))) || negb (overlap (snd x) (snd y)))
+    (mall_blocks ps)) (mall_blocks ps).
